@@ -77,11 +77,14 @@ def truth_from_reading(smi):
     atoms = [dict(el=a["el"], iso=a["iso"], h=a["h"], charge=a["charge"], chir=a["chir"], arom=a["arom"], kind=None) for a in r.atoms]
     bonds = sorted([i, j, o] for (i, j), o in r.bonds.items())
     marks = []
+    marks_raw = []
     for k, (dirs, raw) in refsmiles.mark_dirs(r).items():
         if len(dirs) == 1:
             marks.append([k[0], k[1], next(iter(dirs))])
+        elif raw is not None:
+            marks_raw.append([k[0], k[1], raw[0], raw[1]])
     nbrs = {str(i): list(r.nbrs[i]) for i, a in enumerate(r.atoms) if a["chir"]}
-    t = dict(atoms=atoms, bonds=bonds, marks=sorted(marks), nbrs=nbrs, ring_closures=len(r.ring_bonds), fragments=len(r.roots))
+    t = dict(atoms=atoms, bonds=bonds, marks=sorted(marks), marks_raw=sorted(marks_raw), nbrs=nbrs, ring_closures=len(r.ring_bonds), fragments=len(r.roots))
     _CORPUS_TRUTH[smi] = t
     return t
 
@@ -149,8 +152,10 @@ def classes_of(case, rt):
             cl.append("index_3_symbols")
     if t["nbrs"]:
         cl.append("chiral")
-    if t["marks"]:
+    if t["marks"] or t.get("marks_raw"):
         cl.append("marks")
+    if t.get("marks_raw"):
+        cl.append("same_mark_at_both_ring_digits")
     if case.get("source") == "corpus":
         cl.append("corpus")
     return cl
